@@ -853,14 +853,24 @@ async fn directed(s: &mut S, class: &str) {
             for _ in 0..depth {
                 s.advance(vec![], false).await;
             }
-            let silent_first = s.rng.gen_bool(0.5);
+            // 0: every request answered; 1: nobody answers from the start; 2: the first k requests are
+            // answered, the request for a deeper ancestor is not (the blocks that did arrive stay parked)
+            let mode = s.rng.gen_range(0, 3);
+            let silent_first = mode == 1;
+            let k = s.rng.gen_range(0, depth - 1);
             s.answer_sync_prob = if silent_first { 0.0 } else { 1.0 };
             s.advance(vec![], true).await;
-            for _ in 0..(depth + 2) {
+            for i in 0..(depth + 2) {
+                if mode == 2 && i >= k {
+                    s.answer_sync_prob = 0.0;
+                }
                 s.settle().await;
             }
             if silent_first {
                 evlog::note("C07:first_sync_target_silent");
+            }
+            if mode == 2 {
+                evlog::note("C07:deeper_sync_request_unanswered");
             }
             // Retry path: the synchronizer re-requests from everybody after sync_retry_delay, checked
             // on a fixed 5 s timer. Requests that were ignored stay ignored; only new ones are served.
@@ -1439,6 +1449,8 @@ pub fn run(class: &str, seed: u64, p: &Params) -> RunResult {
                 report.count("C07.retries_observed", 1);
             } else if what == "C07:first_sync_target_silent" {
                 report.sit("C07:first_sync_target_silent");
+            } else if what == "C07:deeper_sync_request_unanswered" {
+                report.sit("C07:deeper_sync_request_unanswered");
             }
         }
     }
